@@ -284,6 +284,7 @@ def c12(ctx):
     small = tiers(ctx, gen.SMALL_QUICK, gen.SMALL_THOROUGH)
     ctx.stream("exh-small", gen.exh_unary(["sqrt"], small), spec_mode="ok", exhaustive=True, nontrivial=lambda t: t == "n", judge=_sqrt_judge)
     ctx.stream("real", gen.sqrt_real(rng, tiers(ctx, 4000, 60000)), spec_mode="ok", nontrivial=lambda t: t == "n", chunk_timeout=600, judge=_sqrt_judge)
+    ctx.stream("wide-and-word-filling", gen.sqrt_wide_lines(rng, tiers(ctx, 25, 250)), spec_mode="ok", nontrivial=lambda t: t == "n", chunk_timeout=900, per_line_timeout=30, judge=_sqrt_judge, chunk_lines=40)
     return done(ctx)
 
 
